@@ -200,6 +200,7 @@ def streams_for(prop, seed, tier, boost=1):
 
     if prop == 'C11':
         add('int', G('int').int_stream(n_random=400 * k))
+        add('int-extra', genmod.int_extra_stream(G('ix')))
         if T:
             add('int-exhaustive', G('x').int_exhaustive())
     elif prop == 'C12':
@@ -209,14 +210,19 @@ def streams_for(prop, seed, tier, boost=1):
         ops += ['henc ' + genmod.hx(s) for s in longs] + ['hrt ' + genmod.hx(s) for s in longs]
         ops += ['hrt %02x' % b for b in range(256)] + ['hrt ' + genmod.hx(bytes(g.rnd.randrange(256) for _ in range(g.rnd.randint(1, 40)))) for _ in range(100 * k)]
         add('henc', ops)
+        add('henc-extra', genmod.huff_extra_stream(G('hx')))
     elif prop == 'C13':
         add('hdec', G('hdec').hdec_stream(n_random=400 * k))
         add('hdec-transitions', genmod.huff_transition_catalogue())
+        add('hdec-shared-buffer', genmod.hdec_shared_stream(G('hs'), n=80 * k))
         if T:
             add('hdec-exhaustive', G('x').hdec_exhaustive())
     elif prop in ('C06', 'C14'):
         add('table', G('table').table_stream(n_tables=12 * k))
         add('table-big', big_table_stream())
+        add('table-long-history', genmod.big_history_table_stream(4300))
+        add('dec-update-runs', genmod.dec_updates_stream(G('du'), n=15 * k))
+        add('dec-extra', genmod.dec_extra_catalogue(G('dx')))
         add('deccat', G('deccat').dec_catalogue())
         add('conn-evict', evict_stream(G('ev'), 8 * k))
         add('enc', G('enc').enc_stream(n_conn=20 * k))
@@ -227,10 +233,18 @@ def streams_for(prop, seed, tier, boost=1):
         add('deccat', G('deccat').dec_catalogue())
         add('dec-wf', G('dec').dec_stream(n_conn=60 * k, mal=0.0))
         add('dec-mixed', G('dec2').dec_stream(n_conn=20 * k, mal=0.3, start_id=3000))
+        add('dec-update-runs', genmod.dec_updates_stream(G('du'), n=20 * k))
+        add('dec-ambiguity', genmod.ambiguity_stream(G('am'), n_random=50 * k))
+        add('dec-setters', genmod.dec_setter_stream(G('ds'), n=15 * k))
+        add('dec-extra', genmod.dec_extra_catalogue(G('dx')))
     elif prop in ('C04', 'C05'):
         add('deccat', G('deccat').dec_catalogue())
         add('dec-mal', G('dec').dec_stream(n_conn=60 * k, mal=0.55))
         add('dec-wf', G('dec2').dec_stream(n_conn=20 * k, mal=0.0, start_id=3000))
+        add('dec-setters', genmod.dec_setter_stream(G('ds'), n=20 * k))
+        add('dec-update-runs', genmod.dec_updates_stream(G('du'), n=10 * k))
+        add('dec-ambiguity', genmod.ambiguity_stream(G('am'), n_random=20 * k))
+        add('dec-extra', genmod.dec_extra_catalogue(G('dx')))
         add('hdec-in-block', ['dnew 1'] + ['ddec 1 1 ' + genmod.hx(bytes([0x00, 0x80 | (len(o.split()[1]) // 2)]) + bytes.fromhex(o.split()[1]) + b'\x00')
                                           for o in genmod.huff_transition_catalogue() if o.split()[1] != '-' and len(o.split()[1]) // 2 < 127][::(1 if (T or boost > 1) else 7)])
         if T:
@@ -239,38 +253,77 @@ def streams_for(prop, seed, tier, boost=1):
         add('deccat', G('deccat').dec_catalogue())
         add('dec-limits', G('dec').dec_stream(n_conn=80 * k, mal=0.15))
         add('dec-bounds', bounds_stream(G('b'), 40 * k))
+        add('dec-extra', genmod.dec_extra_catalogue(G('dx')))
+        add('dec-update-runs', genmod.dec_updates_stream(G('du'), n=10 * k))
+        add('dec-setters', genmod.dec_setter_stream(G('ds'), n=8 * k))
     elif prop in ('C03', 'C19', 'C15'):
         add('enccat', G('enccat').enc_catalogue())
         add('enc', G('enc').enc_stream(n_conn=60 * k))
         add('enc-sizes', genmod.enc_size_stream(G('es'), n=10 * k))
         add('conn-evict', evict_stream(G('ev'), 12 * k))
+        add('enc-big-tables', genmod.big_table_encoder_stream(G('bt')))
+        add('api-forms-conn', genmod.api_forms_conn_stream(G('af'), n=15 * k))
         if prop == 'C15':
+            add('dec-text', G('dect').dec_stream(n_conn=25 * k, mal=0.05, start_id=4000))
+            add('dec-extra', genmod.dec_extra_catalogue(G('dx')))
             add('conn', G('conn').conn_stream(n_conn=15 * k))
             add('deccat', G('deccat').dec_catalogue())
     elif prop == 'C09':
         add('enccat', G('enccat').enc_catalogue())
         add('enc-sizes', genmod.enc_size_stream(G('es'), n=60 * k))
         add('enc', G('enc').enc_stream(n_conn=30 * k))
+        add('api-forms-conn', genmod.api_forms_conn_stream(G('af'), n=8 * k))
     elif prop in ('C01', 'C10'):
         add('conn', G('conn').conn_stream(n_conn=40 * k))
         add('conn-text', G('conntext').conn_text_stream(n_conn=15 * k))
         add('enc-sizes', genmod.enc_size_stream(G('es'), n=25 * k))
         add('conn-evict', evict_stream(G('ev'), 12 * k))
+        add('api-forms-conn', genmod.api_forms_conn_stream(G('af'), n=20 * k))
+        add('enc-big-tables', genmod.big_table_encoder_stream(G('bt')))
     elif prop == 'C17':
         add('deccat', G('deccat').dec_catalogue())
         add('dec-buffers', G('dec').dec_stream(n_conn=60 * k, mal=0.2))
+        add('dec-extra', genmod.dec_extra_catalogue(G('dx')))
+        add('dec-update-runs', genmod.dec_updates_stream(G('du'), n=8 * k))
     elif prop == 'C18':
         ops, groups = G('api').api_stream(n=60 * k)
         add('api', ops, {'groups': groups})
         ops, pairs = G('modes').modes_stream(n=40 * k)
         add('modes', ops, {'pairs': pairs})
         add('conn-text', G('conntext').conn_text_stream(n_conn=10 * k))
+        ops, groups = genmod.empty_forms_stream()
+        add('empty-forms', ops, {'groups': groups})
+        add('api-forms-conn', genmod.api_forms_conn_stream(G('af'), n=15 * k))
+        ops, pairs = modes_extra(G('mx'))
+        add('modes-extra', ops, {'pairs': pairs})
     elif prop == 'C16':
         add('deccat', G('deccat').dec_catalogue())
         add('dec-mal', G('dec').dec_stream(n_conn=30 * k, mal=0.4))
     elif prop == 'C20':
         add('conn', G('conn').conn_stream(n_conn=10 * k))
     return out
+
+
+def modes_extra(g):
+    """raw/text decoder pairs fed the deterministic extra catalogue (static entries as never-indexed literals, the
+    same field under every representation, non-UTF-8 at the limit)"""
+    ops0 = genmod.dec_extra_catalogue(g)
+    ops, pairs, seen = [], [], {}
+    for o in ops0:
+        t = o.split('#')[0].split()
+        ann = (' #' + o.split('#', 1)[1]) if '#' in o else ''
+        if t[0] == 'dnew':
+            a = 100000 + 2 * len(seen); b = a + 1
+            seen[t[1]] = (a, b); pairs.append((a, b))
+            for x in (a, b):
+                ops.append(' '.join(['dnew', str(x)] + t[2:]))
+        elif t[1] in seen:
+            a, b = seen[t[1]]
+            if t[0] == 'ddec':
+                ops.append('ddec %d 1 %s%s' % (a, t[3], ann)); ops.append('ddec %d 0 %s%s' % (b, t[3], ann))
+            else:
+                ops.append(' '.join([t[0], str(a)] + t[2:])); ops.append(' '.join([t[0], str(b)] + t[2:]))
+    return ops, pairs
 
 
 def big_table_stream():
